@@ -456,7 +456,42 @@ static void on_crash(int sig) {
 	atomic_store(&dv_enabled, 0);
 	dv_dump(stdout); fflush(stdout); _exit(4);
 }
+// crash scenarios (usage: c19_block crash <n>): misuse that the library answers with DISPATCH_CLIENT_CRASH; one
+// scenario per process, the crash handler dumps the recorded traces (exit status 4).  Exit status 0 = no crash.
+static void *crash_waiter(void *a) { round_t *r = (round_t *)a; dv_user(DVU_CALL, 0, OP_WAIT, DISPATCH_TIME_FOREVER);
+	dispatch_block_wait(r->db, DISPATCH_TIME_FOREVER); dv_user(DVU_RET, 0, 0, 1); return NULL; }
+static int crash_scenario(int n) {
+	round_t *r = calloc(1, sizeof *r); r->k = 0; r->rng = 12345; sem_init(&r->gate, 0, 0); pthread_mutex_init(&r->wmu, NULL);
+	r->q = dispatch_queue_create("c19.crash", NULL); r->nq = dispatch_get_global_queue(0, 0); r->ug = dispatch_group_create();
+	make_block(r);
+	printf("L flags=16 performed=20 queue=56 thread=64 size=72\nS scenario=%d\n", n);
+	pthread_t th;
+	switch (n) {
+	case 1:  // a second waiter while the first one waits
+		pthread_create(&th, NULL, crash_waiter, r); usleep(20000);
+		dv_user(DVU_CALL, 0, OP_WAIT, 0); dispatch_block_wait(r->db, DISPATCH_TIME_NOW); dv_user(DVU_RET, 0, 1, 1); break;
+	case 2:  // run again (direct call) after a successful wait
+		do_direct(r); do_wait(r, -1); do_direct(r); break;
+	case 3:  // run again (from a queue) after a successful wait
+		do_direct(r); do_wait(r, -1); do_async(r, r->q, 0); usleep(200000); break;
+	case 4:  // waited for after having run twice
+		do_direct(r); do_direct(r); do_wait(r, 0); break;
+	case 5:  // observed after having run twice
+		do_direct(r); do_direct(r); do_notify(r); break;
+	case 6:  // waited for while both run directly (dbpd_thread) and submitted to a queue (dbpd_queue)
+		r->hold = 0; do_direct(r); dispatch_suspend(r->q); do_async(r, r->q, 0); do_wait(r, 0); break;
+	}
+	fflush(stdout);
+	return 0;
+}
 int main(int argc, char **argv) {
+	if (argc > 2 && !strcmp(argv[1], "crash")) {
+		struct sigaction sc; memset(&sc, 0, sizeof sc); sc.sa_handler = on_crash; sigaction(SIGILL, &sc, NULL); sigaction(SIGSEGV, &sc, NULL);
+		sigaction(SIGABRT, &sc, NULL); sigaction(SIGTRAP, &sc, NULL);
+		setvbuf(stdout, NULL, _IOFBF, 1 << 20); ht = calloc(HT_SZ, sizeof *ht);
+		dv_install(1, 0); _dispatch_verif_cb = c19_cb;
+		return crash_scenario(atoi(argv[2]));
+	}
 	uint64_t seed = argc > 1 ? strtoull(argv[1], 0, 10) : 1; int nrounds = argc > 2 ? atoi(argv[2]) : 40;
 	int permille = argc > 3 ? atoi(argv[3]) : 150;
 	struct sigaction sa; memset(&sa, 0, sizeof sa); sa.sa_handler = on_sig; sigaction(SIGUSR1, &sa, NULL);
